@@ -56,6 +56,13 @@ namespace Mask
 def and (a b : Mask) : Mask := List.zipWith (· && ·) a b
 end Mask
 
+namespace Num
+/-- `numpy.sinc(x)` = sin(πx)/(πx), equal to 1 at x = 0 (numpy evaluates the quotient at πx·1e-20-ish there, which is exactly 1.0) -/
+def sinc (x : α) : α :=
+  let y := Transc.pi * x
+  if Cmp.ne y ((0:Nat):α) then Transc.sin y / y else ((1:Nat):α)
+end Num
+
 namespace Vec
 def add (a b : Vec α) : Vec α := List.zipWith (· + ·) a b
 def sub (a b : Vec α) : Vec α := List.zipWith (· - ·) a b
@@ -73,6 +80,7 @@ def neg (a : Vec α) : Vec α := a.map (- ·)
 def sin (a : Vec α) : Vec α := a.map Transc.sin
 def cos (a : Vec α) : Vec α := a.map Transc.cos
 def sqrt (a : Vec α) : Vec α := a.map Transc.sqrt
+def sinc (a : Vec α) : Vec α := a.map Num.sinc
 def zerosLike (a : Vec α) : Vec α := a.map (fun _ => ((0:Nat):α))
 def onesLike (a : Vec α) : Vec α := a.map (fun _ => ((1:Nat):α))
 def gtS (a : Vec α) (s : α) : Mask := a.map (fun x => decide (s < x))
